@@ -3,6 +3,7 @@
 -/
 import CharsetProof.Lemmas.SortWinner
 import CharsetProof.Lemmas.SortPerm
+import CharsetProof.Lemmas.Ranking
 import CharsetProof.Model.Concrete
 set_option linter.unusedSectionVars false
 namespace Charset
@@ -50,60 +51,44 @@ theorem ltKey_irrefl (k : Match.Key) : Match.ltKey k k = false := by
 /-- **C08 (c)**: `get_best()` is the first element of the list -/
 theorem C08_get_best (items : List (Match E L)) : getBest items = items.head? := rfl
 
-/-- **C08 (a)** for lists up to the standard library's insertion-sort cutoff (20): if `w` is preferred
-    to every other element under the pairwise rule, the container's sort puts it first -/
-theorem C08_winner_first_small (l : List (Match E L)) (w : Match E L) (hlen : l.length ≤ 20)
-    (hw : w ∈ l) (hwin : Winner Match.lt w l) : (sortMatches l).head? = some w := by
-  unfold sortMatches sortUnstable sortUnstableWith
-  have hlen' : (l.map (fun m => (m.key, m))).length ≤ insertionCutoff := by simpa [insertionCutoff] using hlen
-  rw [if_pos hlen']
-  have key := insertionSort_winner_first
-    (fun (a b : Match.Key × Match E L) => Match.ltKey a.1 b.1) (w.key, w) (l.map (fun m => (m.key, m)))
-    (ltKey_irrefl _) (by simp only [List.mem_map]; exact ⟨w, hw, rfl⟩) ?_
-  · rw [List.head?_map, key]; rfl
-  · intro y hy hyw
-    simp only [List.mem_map] at hy
-    obtain ⟨m, hm, rfl⟩ := hy
-    have hmw : m ≠ w := fun h => hyw (by rw [h])
-    have := hwin m hm hmw
-    exact this
+/-- **C08 (a)**, every list length: if `w` is preferred to every other element under the pairwise
+    rule, the container's sort puts it first -/
+theorem C08_winner_first (l : List (Match E L)) (w : Match E L)
+    (hw : w ∈ l) (hwin : Winner Match.lt w l) : (sortMatches l).head? = some w :=
+  sortMatches_winner_first l w hw hwin
 
-/-- **C08 (b)**: symmetrically, a match every other one is preferred to comes last -/
-theorem C08_loser_last_small (l : List (Match E L)) (z : Match E L) (hlen : l.length ≤ 20)
-    (hz : z ∈ l) (hlos : Loser Match.lt z l) : (sortMatches l).getLast? = some z := by
-  unfold sortMatches sortUnstable sortUnstableWith
-  have hlen' : (l.map (fun m => (m.key, m))).length ≤ insertionCutoff := by simpa [insertionCutoff] using hlen
-  rw [if_pos hlen']
-  have key := insertionSort_loser_last
-    (fun (a b : Match.Key × Match E L) => Match.ltKey a.1 b.1) (z.key, z) (l.map (fun m => (m.key, m)))
-    (by simp only [List.mem_map]; exact ⟨z, hz, rfl⟩) ?_
-  · rw [List.getLast?_map, key]; rfl
-  · intro y hy hyz
-    simp only [List.mem_map] at hy
-    obtain ⟨m, hm, rfl⟩ := hy
-    have hmz : m ≠ z := fun h => hyz (by rw [h])
-    exact hlos m hm hmz
+/-- **C08 (b)**, every list length: an element every other one is preferred to comes last -/
+theorem C08_loser_last (l : List (Match E L)) (z : Match E L)
+    (hz : z ∈ l) (hlos : Loser Match.lt z l) : (sortMatches l).getLast? = some z :=
+  sortMatches_loser_last l z hz hlos
 
-/-- **C08 (d)**: inserting through the container API re-sorts: when an inserted match is not merged
-    into an existing one, the new list is the sort of the old items plus the new one -/
+theorem C08_winner_first_small (l : List (Match E L)) (w : Match E L) (_hlen : l.length ≤ 20)
+    (hw : w ∈ l) (hwin : Winner Match.lt w l) : (sortMatches l).head? = some w :=
+  C08_winner_first l w hw hwin
+
+theorem C08_loser_last_small (l : List (Match E L)) (z : Match E L) (_hlen : l.length ≤ 20)
+    (hz : z ∈ l) (hlos : Loser Match.lt z l) : (sortMatches l).getLast? = some z :=
+  C08_loser_last l z hz hlos
+
+/-- appending an item that is not merged re-sorts the whole list … -/
 theorem C08_append_resorts (tooBig : Nat) (items : List (Match E L)) (item : Match E L)
     (hnomerge : (if item.raw.length ≤ tooBig then mergeInto item items else none) = none) :
     append sortMatches tooBig items item = sortMatches (items ++ [item]) := by
   unfold append; rw [hnomerge]
 
-/-- … so a winner of the pushed list is first and `get_best()` returns it (≤ 20 elements) -/
+/-- … so a winner of the pushed list is first and `get_best()` returns it (every length) -/
 theorem C08_append_winner (tooBig : Nat) (items : List (Match E L)) (item w : Match E L)
     (hnomerge : (if item.raw.length ≤ tooBig then mergeInto item items else none) = none)
-    (hlen : items.length < 20) (hw : w ∈ items ++ [item]) (hwin : Winner Match.lt w (items ++ [item])) :
+    (hw : w ∈ items ++ [item]) (hwin : Winner Match.lt w (items ++ [item])) :
     getBest (append sortMatches tooBig items item) = some w := by
   rw [C08_append_resorts tooBig items item hnomerge, C08_get_best]
-  exact C08_winner_first_small _ w (by simp; omega) hw hwin
+  exact C08_winner_first _ w hw hwin
 
 /-- `CharsetMatches::new(Some(items))` -/
-theorem C08_new_winner (items : List (Match E L)) (w : Match E L) (hlen : items.length ≤ 20)
+theorem C08_new_winner (items : List (Match E L)) (w : Match E L)
     (hw : w ∈ items) (hwin : Winner Match.lt w items) :
     getBest (newContainer sortMatches items) = some w :=
-  C08_winner_first_small items w hlen hw hwin
+  C08_winner_first items w hw hwin
 
 /-- merging an alternative into an existing match changes neither order nor keys -/
 theorem mergeInto_keys {item : Match E L} {items items' : List (Match E L)}
